@@ -716,7 +716,7 @@ pub fn generate(tier: &str, seed: u64, out: &mut Out) {
     }
 
     // ---- random control-point lists x length classes x modes
-    let n_lists = if thorough { 1500 } else { 260 };
+    let n_lists = if thorough { 4000 } else { 600 };
     for i in 0..n_lists {
         let pts = random_points(&mut r, 12);
         let natural = impl_curve(&CurveCase { mode: 1, pts: pts.clone(), len: None }).map_or(0.0, |c| c.dist());
